@@ -4,11 +4,98 @@
 package c06
 
 import (
+	"encoding/json"
 	"time"
 
 	"verifharness/internal/core"
 	"verifharness/internal/opsim"
 )
+
+// Input is either an operator scenario or one hook's EnableKubernetesBindings task in a
+// failing environment (enable.go).
+type Input struct {
+	Scenario *opsim.Scenario `json:"scenario,omitempty"`
+	Enable   *EnableIn       `json:"enable,omitempty"`
+	Acts     []opsim.Action  `json:"acts,omitempty"` // shrink key: mirrors Scenario.Acts
+}
+
+// UnmarshalJSON also accepts the earlier replay files of C06, whose input is a bare scenario.
+func (in *Input) UnmarshalJSON(b []byte) error {
+	var probe map[string]json.RawMessage
+	if err := json.Unmarshal(b, &probe); err != nil {
+		return err
+	}
+	_, isScenario := probe["scenario"]
+	_, isEnable := probe["enable"]
+	if !isScenario && !isEnable {
+		var sc opsim.Scenario
+		if err := json.Unmarshal(b, &sc); err != nil {
+			return err
+		}
+		*in = Input{Scenario: &sc}
+		return nil
+	}
+	type plain Input
+	var p plain
+	if err := json.Unmarshal(b, &p); err != nil {
+		return err
+	}
+	*in = Input(p)
+	return nil
+}
+
+type Obs struct {
+	Trace  *opsim.Trace `json:"trace,omitempty"`
+	Enable *EnableObs   `json:"enable,omitempty"`
+}
+
+func Run(in Input) Obs {
+	if in.Enable != nil {
+		o := runEnable(*in.Enable)
+		return Obs{Enable: &o}
+	}
+	sc := *in.Scenario
+	if len(in.Acts) > 0 {
+		sc.Acts = in.Acts
+	}
+	tr := opsim.RunScenario(sc)
+	return Obs{Trace: &tr}
+}
+
+func Render(in Input, obs *Obs, crash string) core.Case {
+	if in.Enable != nil {
+		var o *EnableObs
+		if obs != nil {
+			o = obs.Enable
+		}
+		return renderEnable(*in.Enable, o, crash)
+	}
+	sc := *in.Scenario
+	if len(in.Acts) > 0 {
+		sc.Acts = in.Acts
+	}
+	var tr *opsim.Trace
+	if obs != nil {
+		tr = obs.Trace
+	}
+	c := opsim.Render(sc, tr, crash)
+	c.Coq = "COp " + c.Coq
+	return c
+}
+
+func Explicit(in Input, obs *Obs) Input {
+	if in.Enable != nil || obs == nil || obs.Trace == nil {
+		return in
+	}
+	base := *in.Scenario
+	if len(in.Acts) > 0 {
+		base.Acts = in.Acts
+	}
+	sc := opsim.ExplicitInput(base, obs.Trace)
+	acts := sc.Acts
+	sc.Acts = nil
+	return Input{Scenario: &sc, Acts: acts}
+}
 
 var profile = opsim.Profile{Name: "c06", MaxHooks: 6, Steps: 40, PFail: 30, PHold: 0, V0: true, ManyOrders: true, PWait: 20}
 var profileBig = opsim.Profile{Name: "c06big", MaxHooks: 40, Steps: 70, PFail: 10, PHold: 0, V0: true, ManyOrders: true}
@@ -55,17 +142,28 @@ func nestedPaths(cfg []opsim.Hook) []opsim.Hook {
 	return out
 }
 
-func Gen(r *core.Rng, tier string) ([]core.In[opsim.Scenario], bool) {
-	var ins []core.In[opsim.Scenario]
+func Gen(r *core.Rng, tier string) ([]core.In[Input], bool) {
+	var ins []core.In[Input]
 	for _, sc := range Corpus() {
-		ins = append(ins, core.In[opsim.Scenario]{Input: sc, Stream: "corpus"})
+		sc := sc
+		ins = append(ins, core.In[Input]{Input: Input{Scenario: &sc}, Stream: "corpus"})
 	}
-	n := 60
+	for _, e := range enableCorpus() {
+		e := e
+		ins = append(ins, core.In[Input]{Input: Input{Enable: &e}, Stream: "corpus-enable"})
+	}
+	n, ne := 60, 60
 	switch tier {
 	case "thorough":
-		n = 1500
+		n, ne = 1500, 2000
 	case "search":
-		n = 300
+		n, ne = 300, 600
+	}
+	if tier != "quick" {
+		for _, e := range enableExhaustive() {
+			e := e
+			ins = append(ins, core.In[Input]{Input: Input{Enable: &e}, Stream: "exhaustive-enable"})
+		}
 	}
 	for i := 0; i < n; i++ {
 		p := profile
@@ -78,17 +176,23 @@ func Gen(r *core.Rng, tier string) ([]core.In[opsim.Scenario], bool) {
 			sc.Cfg = nestedPaths(sc.Cfg)
 			stream = "random-nested-paths"
 		}
-		ins = append(ins, core.In[opsim.Scenario]{Input: sc, Stream: stream})
+		ins = append(ins, core.In[Input]{Input: Input{Scenario: &sc}, Stream: stream})
+	}
+	// the EnableKubernetesBindings task in a failing environment (generated last, so that the
+	// operator scenarios of a seed stay what they were)
+	for i := 0; i < ne; i++ {
+		e := genEnable(r)
+		ins = append(ins, core.In[Input]{Input: Input{Enable: &e}, Stream: "random-enable"})
 	}
 	return ins, false
 }
 
-var Driver = core.Driver[opsim.Scenario, opsim.Trace]{
-	Spec: core.Spec{Property: "C06", Imports: []string{"Op_Model", "Op_Corr", "C06_Spec", "C06_Corr"}, Corr: "C06_Corr", ShrinkKey: "acts",
-		Rule: "operator-level scenarios (see C03) concentrated on start-up: 1-6 hooks (every 6th case up to 40 hooks) with ORDER drawn from {0,1} (10% from -5..34), kubernetes bindings with groups / executeHookOnSynchronization=false / v0 hooks, start-up executions failing 10-30% of the time; 40% of the configurations with >=3 hooks put the first three hooks at paths (d-h001, d.h002, d/h003) whose lexical order differs from directory-walk order; non-trivial = >=4 actions of >=2 kinds with >=2 executions; distinct = distinct (config, action list)"},
+var Driver = core.Driver[Input, Obs]{
+	Spec: core.Spec{Property: "C06", Imports: []string{"Op_Model", "Op_Corr", "C06_Spec", "C06_Enable", "C06_EnableSpec", "C06_Corr"}, Corr: "C06_Corr", ShrinkKey: "acts",
+		Rule: "operator-level scenarios (see C03) concentrated on start-up: 1-6 hooks (every 6th case up to 40 hooks) with ORDER drawn from {0,1} (10% from -5..34), kubernetes bindings with groups / executeHookOnSynchronization=false / v0 hooks, start-up executions failing 10-30% of the time; 40% of the configurations with >=3 hooks put the first three hooks at paths (d-h001, d.h002, d/h003) whose lexical order differs from directory-walk order; non-trivial = >=4 actions of >=2 kinds with >=2 executions; distinct = distinct (config, action list); plus an 'enable' class (streams corpus-enable / random-enable): ONE hook with 1-6 kubernetes bindings (kinds ConfigMap/Secret/Pod/Service, one or two namespaces each, groups, queues, executeHookOnSynchronization=false, allowFailure, 12% with repeated binding names, optionally onStartup / a schedule binding) whose EnableKubernetesBindings task - created by the real bootstrapMainQueue - is run by the real task handler again and again while the initial LIST of chosen bindings fails in chosen attempts (0-5 failing attempts, 60% of the failures at a binding that is not the first, several failing bindings per attempt, unreachable failures); compared run by run: AddMonitor calls seen by the environment, status, returned tasks, HasMonitor / CanHandleKubeEvent per binding; then every binding is probed (object created while locked, unlock by the returned tasks' monitor ids, emitted KubeEvents); thorough/search tiers add every failure pattern over the first two attempts for 1-3 bindings (84 cases); non-trivial (enable) = >=2 bindings and >=1 failed run"},
 	Gen:      Gen,
-	Run:      opsim.RunScenario,
-	Render:   func(in opsim.Scenario, obs *opsim.Trace, crash string) core.Case { return opsim.Render(in, obs, crash) },
-	Explicit: opsim.ExplicitInput,
+	Run:      Run,
+	Render:   Render,
+	Explicit: Explicit,
 	PerShard: 30, Workers: 8, CaseTimout: 60 * time.Second,
 }
